@@ -263,7 +263,20 @@ def break_comment(text, g=3, p=0):
     return eol_comment(v, 1, 0)
 
 
+def utf8_header(text, pad=0):
+    """a block of comment lines made of three-byte UTF-8 characters in front of the file, 64 bytes per line, shifted by
+    `pad` bytes: in two of the three shifts a character straddles every multiple of 8192 bytes; the file grows beyond 8 KiB"""
+    if not text.strip():
+        return None
+    head = "--" + "x" * pad + "\n"
+    body = ("-- " + "\u6e2c" * 20 + "\n") * 150
+    return head + body + text
+
+
 RECIPES = {
+    "ownutf8a": lambda s: utf8_header(s, 0),
+    "ownutf8b": lambda s: utf8_header(s, 1),
+    "ownutf8c": lambda s: utf8_header(s, 2),
     "lopl": lambda s: lopsided(s, True),
     "lopr": lambda s: lopsided(s, False),
     "tight": lambda s: tight(s, 1, 0),
